@@ -105,8 +105,12 @@ def gen_c13(engine):
             cfg["on"]["S"] = {"actions": ["tr.TSa", {"type": "xstate.raise", "params": {"event": {"type": "S2"}}}]}
             cfg["on"]["S2"] = {"actions": ["tr.TSb"]}
             nshort = rng.choice((M, M + 2, 2 * M + 3))
-            for i in range(nshort):
-                ops.append({"op": "send", "event": {"type": "S", "tag": 5000 + i}})
+            if rng.random() < 0.5:
+                # ... delivered as ONE send_events batch: each event of the batch still starts a chain of its own
+                ops.append({"op": "send_events", "events": [{"type": "S", "tag": 5000 + i} for i in range(nshort)]})
+            else:
+                for i in range(nshort):
+                    ops.append({"op": "send", "event": {"type": "S", "tag": 5000 + i}})
             ops.append({"op": "send", "event": "PROBE", "tag": 8})
         inflight = engine == "async" and rng.random() < 0.35
         if inflight:
@@ -221,7 +225,7 @@ def oracle_c13(sc, res):
             for op in sc["ops"]:
                 if op.get("op") == "send_events":
                     want = [e["tag"] for e in op["events"]]
-                    got = [r[6] for r in res.trace if r[K] == "recv" and r[5] == "B"]
+                    got = [r[6] for r in res.trace if r[K] == "recv" and r[6] is not None]
                     missing = [t for t in want if t not in got]
                     if missing:
                         vios.append(Violation("C13", "bound-discarded-external-events",
